@@ -350,11 +350,11 @@ class Joiner:
                 if k in ea.variants:
                     for x_ in ea.variants[k]:
                         val_syms(x_, pa_)
-                    pa_ = {self.sa.get(s_, s_) for s_ in pa_} | pa_
+                    pa_ = {self.sa.get(s_, s_) for s_ in pa_} | {p_ for s_ in pa_ for p_ in self.sa_all.get(s_, ())} | pa_
                 if k in eb.variants:
                     for x_ in eb.variants[k]:
                         val_syms(x_, pb_)
-                    pb_ = {self.sb.get(s_, s_) for s_ in pb_} | pb_
+                    pb_ = {self.sb.get(s_, s_) for s_ in pb_} | {p_ for s_ in pb_ for p_ in self.sb_all.get(s_, ())} | pb_
                 da = self._delta(A, _merge_deltas(cxa + ((ea.when[k],) if k in ea.when else ())), self.sa, prefer=pa_) if k in ea.variants else None
                 db = self._delta(B, _merge_deltas(cxb + ((eb.when[k],) if k in eb.when else ())), self.sb, prefer=pb_) if k in eb.variants else None
                 d = da if db is None else (db if da is None else self._join_delta(da, db))
@@ -506,6 +506,44 @@ class Joiner:
             return any(any(s in stale for s in d.iv) or any(any(s in stale for s in f.t) for f in d.facts) for d in v.values())
         return False
 
+    def _alt_renames(self, f, side_a):
+        """A source symbol that sits in several places gets several phis; `sx` knows only the first.  Yield, for every
+        other phi p' = (a | b') of a symbol a the fact mentions, (fact over p', fact over the other side's b')."""
+        sx, mxy = (self.sa, None) if side_a else (self.sb, None)
+        sx_all = self.sa_all if side_a else self.sb_all
+        out = []
+        for s in f.t:
+            ps = sx_all.get(s)
+            if not ps or len(ps) < 2:
+                continue
+            for p2 in ps:
+                if p2 == sx.get(s):
+                    continue
+                other = None
+                for p_, a_, b_ in self.phis:
+                    if p_ == p2:
+                        other = b_ if side_a else a_
+                        break
+                if other is None:
+                    continue
+                mj = {k: v for k, v in sx.items() if k in f.t}
+                mj[s] = p2
+                my = {}
+                for k in f.t:
+                    if k == s:
+                        my[k] = other
+                    else:
+                        pk = sx.get(k)
+                        if pk is not None:
+                            for p_, a_, b_ in self.phis:
+                                if p_ == pk:
+                                    my[k] = b_ if side_a else a_
+                                    break
+                out.append((f.rename(mj), f.rename(my) if my else f))
+                if len(out) >= 4:
+                    return out
+        return out
+
     def _facts(self, X, Y, sx, mxy, stale, dead_in_y=()):
         J = self.J
         for f in X.facts:
@@ -520,6 +558,10 @@ class Joiner:
                     continue  # mixes symbols meaningful on both sides with ones that are not
             fy = f.rename(mxy) if any(s in mxy for s in f.t) else f
             fj = f.rename(sx) if any(s in sx for s in f.t) else f
+            if fj is not f:
+                for fj2, fy2 in self._alt_renames(f, X is self.A):
+                    if fj2 not in J.facts and all(s_ in Y.iv or not isinstance(s_, int) for s_ in fy2.t) and (fy2 in Y.facts or Y.entails(Y.expand(fy2))):
+                        J.facts.add(fj2)
             if fj in J.facts:
                 continue
             if fy in Y.facts or Y.entails(Y.expand(fy)):
@@ -551,6 +593,12 @@ class Joiner:
             fj = f.rename(sx) if any(s in sx for s in f.t) else f
             if fj not in facts:
                 facts.append(fj)
+            if prefer and fj is not f and any(s in prefer and s in sx for s in f.t) and f not in facts:
+                facts.append(f)
+            if prefer and fj is not f:
+                for fj2, _ in self._alt_renames(f, sx is self.sa):
+                    if fj2 not in facts and any(s in prefer for s in fj2.t):
+                        facts.append(fj2)
         ef = dict(base.ef)
         for ln, ts in extra.ef.items():
             jl = sx.get(ln, ln)
@@ -597,6 +645,14 @@ class Joiner:
             fj = f.rename(sx) if any(s in sx for s in f.t) else f
             if fj not in J.facts:
                 facts.append(fj)
+            # a payload symbol that is also the source of a phi elsewhere (the same value sits in a local that is
+            # merged and in a variant's payload that is not): the variant keeps the fact about the symbol itself too
+            if prefer and fj is not f and any(s in prefer and s in sx for s in f.t) and f not in J.facts and f not in facts:
+                facts.append(f)
+            if prefer and fj is not f:
+                for fj2, _ in self._alt_renames(f, side_a):
+                    if fj2 not in J.facts and fj2 not in facts and any(s in prefer for s in fj2.t):
+                        facts.append(fj2)
         if len(iv) > 64:
             iv = dict(list(iv.items())[:64])
         if prefer and len(facts) > 24:
